@@ -34,3 +34,32 @@ def make_vector(x, y, z=0):
     o.fields.update(coordinates=(x, y, z), _dependencies=(), _requiredProperties=(), _needsSampling=False, _needsLazyEval=False, _isLazy=False)
     o.fields["_conditioned"] = o
     return o
+
+
+def install_distribution_stubs(reg):
+    """Trusted stubs for the book-keeping constructors (dependency lists only; verified separately under
+    C01's Samplable.__init__ contract)."""
+    from pyvc.builtins_model import get_attr
+    from pyvc.interp import SymRaise
+
+    def is_lazy(I, d):
+        if isinstance(d, PObj):
+            return bool(d.fields.get("_isLazy", False)) if not isinstance(d.fields.get("_isLazy", False), SV) else True
+        return False
+
+    def dist_init(I, self, *deps, valueType=None):
+        self.fields["_dependencies"] = tuple(d for d in deps if is_lazy(I, d))
+        self.fields["_requiredProperties"] = ()
+        self.fields["_needsSampling"] = True
+        self.fields["_needsLazyEval"] = False
+        self.fields["_isLazy"] = True
+        self.fields["_conditioned"] = self
+        self.fields["_valueType"] = valueType
+        return None
+
+    if "scenic.core.distributions:Distribution.__init__" not in reg.models:
+        reg.models["scenic.core.distributions:Distribution.__init__"] = dist_init
+        reg.models["scenic.core.type_support:unifyingType"] = lambda I, opts: object
+        reg.models["scenic.core.type_support:toScalar"] = lambda I, v, msg=None: v
+        reg.trust("Distribution.__init__", "stub: records the lazy dependencies in argument order and marks the node as needing sampling")
+        reg.trust("type_support.unifyingType/toScalar", "stubs: type inference only (not a carrier)")
